@@ -53,8 +53,20 @@ MANIFEST = {
             "query is sent only over such an id (C17_client_queries_own_connection). (8) file-system REQUESTS on database/ and "
             "downloads/ (deleted copies modelled, restore of a deleted copy), re-install with non-default fixing duration / starting "
             "health, compromise on the FTP client; what happens to the stored backup when it is deleted or the service re-installed "
-            "(orphans, C17_no_backup_stays_none_run). Tie: regenerated tables (Gen/Database.lean, C17_gen_*), the translated functions "
-            "(39 method instances, one obligation each), and differential rig R-db on real client/server/backup hosts behind a router.",
+            "(orphans, C17_no_backup_stays_none_run). ROUND 7: (9) the TICK path and the life-cycle methods are translated along the class "
+            "chain the way Python dispatches them (DatabaseService.apply_timestep -> Service.apply_timestep -> Software.apply_timestep -> "
+            "DatabaseService._update_fix_status -> Software._update_fix_status -> restore_backup; Software.fix; Service.stop / start / "
+            "pause / resume / restart / disable / enable; Gen/DatabaseTickTr.lean, with `_fixing_countdown : Optional[int]` and "
+            "`restart_countdown : int` as the code has them) and PROVED EQUAL to the model's tickSvc / Server.request / svcStart / "
+            "svcStop for every state (C17_tr_tick_svc, C17_tr_lifecycle, C17_tr_start_stop): backup at timestep 1 and at no other, "
+            "decrement-then-test of the fix countdown, test-then-decrement of the restart countdown, restore in the very tick the fix "
+            "completes, are proof obligations; the same for the FTP client of the database host along ITS class chain "
+            "(C17_tr_tick_ftpc, C17_tr_ftpc_admin). (10) the frame of the connection-table theorems - which code can write "
+            "`_connections` at all - is regenerated from the whole source tree and compared (C17_gen_table_writers). (11) the rig's "
+            "digest shows the live countdowns (FIXING(n), RESTARTING(n), also the FTP client's); the (halt, offset, duration) "
+            "combinations of the fix race (70) and the (fixing_duration, restart_duration) pairs 0..3 x 0..3 are ENUMERATED on every "
+            "run. Tie: regenerated tables (Gen/Database.lean, C17_gen_*), the translated functions "
+            "(51 method instances, one obligation each), and differential rig R-db on real client/server/backup hosts behind a router.",
     "note": "C17-specific: the network between hosts is abstracted to per-direction reachability flags (validated by the rig "
             "with real ACL rules, NIC state and node power); the FTP transfers are modelled as far as the database uses them "
             "(`ftpSendFile` / `ftpRequestFile`: since round 4 proved equal to the translated FTP code; what stays hand-written is "
@@ -196,6 +208,15 @@ def run(ctx: Ctx):
             case, impl = rig.gen_countdowns_and_run(rng2, c, r)
             cases.append((f"countdowns:{c}:{r}", case))
             pre[f"countdowns:{c}:{r}"] = impl
+    # the `_process_sql` grid (72 cells) and the password grid (16 cells), ENUMERATED
+    for k, (f, h, q) in enumerate(rig.SQLGRID_ALL):
+        case, impl = rig.gen_sqlgrid_and_run(rng2, f, h, q)
+        cases.append((f"sqlgrid:{f}:{h}:{q}", case))
+        pre[f"sqlgrid:{f}:{h}:{q}"] = impl
+    for sp, cp in rig.PWGRID_ALL:
+        case, impl = rig.gen_pwgrid_and_run(rng2, sp, cp)
+        cases.append((f"pwgrid:{sp}:{cp}", case))
+        pre[f"pwgrid:{sp}:{cp}"] = impl
     impl_all, lines_all, bounds = [], [], []
     for name, case in cases:
         impl = pre[name] if name in pre else rig.run_impl(case)
